@@ -5,7 +5,7 @@ import gens
 import gen_table as G
 
 RULE = ("2-4 parser objects with different DDL (harvested incl. the hive 'input.regex' DDL, generated tables with quoted names, "
-        "invalid DDL) and different normalize_names / silent settings; EVERY interleaving of {construct_i, run_i} for 2 objects and "
+        "invalid DDL) and different normalize_names / silent / debug settings (debug=True makes an object loud); EVERY interleaving of {construct_i, run_i} for 2 objects and "
         "random interleavings for 3-4 objects, executed in a FRESH process each; 8-16 concurrent threads each constructing and "
         "running its own object repeatedly; expected = the result of the same object alone in a fresh process. "
         "non-trivial = distinct schedule with >= 2 objects whose solo results differ from each other")
@@ -57,8 +57,16 @@ def run(ctx, res):
     pool = []
     for d in regex[:2] + props[:6] + quoted + invalid + rng.sample(ddls, min(len(ddls), 25)) + \
             [G.render_table(G.gen_table(rng), rng) for _ in range(10)]:
-        pool.append({"ddl": d, "ctor": {"normalize_names": rng.random() < 0.5, "silent": rng.random() < 0.7},
-                     "run": {"output_mode": rng.choice(["sql", "hql", "mssql", "bigquery"])}})
+        ctor = {"normalize_names": rng.random() < 0.5, "silent": rng.random() < 0.7}
+        if rng.random() < 0.2:
+            ctor = {"normalize_names": ctor["normalize_names"], "debug": True}       # debug=True makes the object loud whatever silent says
+        pool.append({"ddl": d, "ctor": ctor, "run": {"output_mode": rng.choice(["sql", "hql", "mssql", "bigquery"])}})
+    # objects whose EFFECTIVE loudness differs although their constructor arguments look alike: a quiet one, then a debug=True
+    # one (loud) on DDL the grammar rejects
+    loud_first = len(pool)
+    for nn in (False, True):
+        pool.append({"ddl": "CREATE TABLE quiet_%d (a int);" % nn, "ctor": {"normalize_names": nn}, "run": {}})
+        pool.append({"ddl": "CREATE PABLE foo (a int);\nCREATE TABLE ok_%d (a int);" % nn, "ctor": {"normalize_names": nn, "debug": True}, "run": {}})
     # pairs (defines a table ; only alters / indexes that table): the second alone raises ValueError
     pair_first = len(pool)
     for k in range(4):
@@ -108,6 +116,11 @@ def run(ctx, res):
         a, b = pair_first + 2 * k, pair_first + 2 * k + 1
         scheds.append([["c", a], ["r", a], ["c", b], ["r", b], ["r", a]])
         scheds.append([["c", a], ["c", b], ["r", a], ["r", b]])
+    for k in range(2):
+        a, b = loud_first + 2 * k, loud_first + 2 * k + 1
+        scheds.append([["c", a], ["c", b], ["r", b], ["r", a]])
+        scheds.append([["c", a], ["r", a], ["c", b], ["r", b]])
+        scheds.append([["c", b], ["c", a], ["r", a], ["r", b]])
     if regex:
         for j in range(len(regex[:2]), len(regex[:2]) + len(props[:6])):
             scheds.append([["c", 0], ["r", 0], ["c", j], ["r", j]])
